@@ -1,5 +1,7 @@
 //! Async adapter end to end on a socketpair (C17).
-//! Case line:  <payload_len> <write_chunk> <read_chunk> <order: rw|wr> <dispatch_between: 0|1> <nonblock_before: 0|1> <end: drop|inner>
+//! Case line:  <payload_len> <write_chunk> <read_chunk> <order: rw|wr> <dispatch_between: 0|1> <nonblock_before: 0|1> <end: drop|inner> [<vectored: 0|1> <reuse: k>]
+//!   vectored: the tasks use poll_read_vectored / poll_write_vectored (two slices per call); reuse: k sources are inserted and removed first, so
+//!   that the adapters live in slots that were used before (generation >= 1)
 //! Output: bytes_ok flags_ok(reader,writer) finished epoll_clean readapt dispatches
 use calloop::futures::executor;
 use calloop::EventLoop;
@@ -32,6 +34,7 @@ struct ReadAll<'a> {
     chunk: usize,
     got: Vec<u8>,
     log: EvLog,
+    vec: bool,
 }
 impl Future for ReadAll<'_> {
     type Output = Vec<u8>;
@@ -44,7 +47,14 @@ impl Future for ReadAll<'_> {
             let n = self.chunk.min(self.want - self.got.len());
             let mut buf = vec![0u8; n];
             let this = &mut *self;
-            match Pin::new(&mut *this.io).poll_read(cx, &mut buf) {
+            let res = if this.vec && n >= 2 {
+                let (a, b) = buf.split_at_mut(n / 2);
+                let mut sl = [std::io::IoSliceMut::new(a), std::io::IoSliceMut::new(b)];
+                Pin::new(&mut *this.io).poll_read_vectored(cx, &mut sl)
+            } else {
+                Pin::new(&mut *this.io).poll_read(cx, &mut buf)
+            };
+            match res {
                 Poll::Ready(Ok(0)) => return Poll::Ready(std::mem::take(&mut self.got)),
                 Poll::Ready(Ok(k)) => {
                     self.log.borrow_mut().push(format!("R{}", k));
@@ -65,6 +75,7 @@ struct WriteAll<'a> {
     pos: usize,
     chunk: usize,
     log: EvLog,
+    vec: bool,
 }
 impl Future for WriteAll<'_> {
     type Output = usize;
@@ -75,7 +86,14 @@ impl Future for WriteAll<'_> {
             }
             let end = (self.pos + self.chunk).min(self.data.len());
             let this = &mut *self;
-            match Pin::new(&mut *this.io).poll_write(cx, &this.data[this.pos..end]) {
+            let res = if this.vec && end - this.pos >= 2 {
+                let mid = this.pos + (end - this.pos) / 2;
+                let sl = [std::io::IoSlice::new(&this.data[this.pos..mid]), std::io::IoSlice::new(&this.data[mid..end])];
+                Pin::new(&mut *this.io).poll_write_vectored(cx, &sl)
+            } else {
+                Pin::new(&mut *this.io).poll_write(cx, &this.data[this.pos..end])
+            };
+            match res {
                 Poll::Ready(Ok(k)) => {
                     self.log.borrow_mut().push(format!("W{}", k));
                     self.pos += k
@@ -105,9 +123,11 @@ fn epoll_fds(epfd: i32) -> Vec<i32> {
 
 fn run_case(line: &str) -> String {
     let ws: Vec<&str> = line.split_whitespace().collect();
-    if ws.len() != 7 {
+    if ws.len() != 7 && ws.len() != 9 {
         return "BAD".into();
     }
+    let vectored = ws.len() == 9 && ws[7] == "1";
+    let reuse: usize = if ws.len() == 9 { ws[8].parse().unwrap_or(0) } else { 0 };
     let len: usize = ws[0].parse().unwrap_or(0);
     let wchunk: usize = ws[1].parse().unwrap_or(1).max(1);
     let rchunk: usize = ws[2].parse().unwrap_or(1).max(1);
@@ -129,6 +149,17 @@ fn run_case(line: &str) -> String {
     let tx_dup = tx.try_clone().expect("dup tx");
     let rx_dup = rx.try_clone().expect("dup rx");
     let payload: Vec<u8> = (0..len).map(|i| (i * 31 + 7) as u8).collect();
+    // occupy and vacate the slots the adapters are going to take: `reuse` rounds of two timers inserted and removed
+    for _ in 0..reuse {
+        let a = handle.insert_source(calloop::timer::Timer::from_duration(Duration::from_secs(3600)), |_, _, _| calloop::timer::TimeoutAction::Drop);
+        let b = handle.insert_source(calloop::timer::Timer::from_duration(Duration::from_secs(3600)), |_, _, _| calloop::timer::TimeoutAction::Drop);
+        if let Ok(t) = a {
+            handle.remove(t);
+        }
+        if let Ok(t) = b {
+            handle.remove(t);
+        }
+    }
     let mut txa = handle.adapt_io(tx).expect("adapt tx");
     let mut rxa = handle.adapt_io(rx).expect("adapt rx");
     let made_nb = nonblock(txfd) && nonblock(rxfd);
@@ -147,6 +178,7 @@ fn run_case(line: &str) -> String {
                 chunk: rchunk,
                 got: vec![],
                 log: evlog,
+                vec: vectored,
             }
             .await;
             *received.borrow_mut() = Some(got);
@@ -170,6 +202,7 @@ fn run_case(line: &str) -> String {
                 pos: 0,
                 chunk: wchunk,
                 log: evlog,
+                vec: vectored,
             }
             .await;
             *written.borrow_mut() = Some(n);
@@ -197,10 +230,14 @@ fn run_case(line: &str) -> String {
         sched.schedule(reader).expect("schedule");
     }
     let mut dispatches = 0;
-    while (received.borrow().is_none() || written.borrow().is_none()) && dispatches < 20000 {
+    // give up once 100 consecutive dispatches (2 s) brought no event at all: both tasks are parked and nothing will wake them
+    let mut idle_rounds = 0;
+    while (received.borrow().is_none() || written.borrow().is_none()) && dispatches < 20000 && idle_rounds < 100 {
         evlog.borrow_mut().push("D".into());
+        let before = evlog.borrow().len();
         let _ = event_loop.dispatch(Some(Duration::from_millis(20)), &mut ());
         dispatches += 1;
+        idle_rounds = if evlog.borrow().len() == before { idle_rounds + 1 } else { 0 };
     }
     let finished = received.borrow().is_some() && written.borrow().is_some();
     let bytes_ok = received.borrow().as_ref().map(|g| *g == payload).unwrap_or(false);
@@ -280,6 +317,76 @@ fn run_dup_case(line: &str) -> String {
         "second_err={} still_nb={} registered_after_failure={} first_woken={} epoll_clean={} flags_ok={}",
         second_err as u8, still_nb as u8, registered_after_failure as u8, first_woken as u8, epoll_clean as u8, flags_ok as u8
     )
+}
+
+/// Poller key of an adapter against the keys of the other occupants of its slot (C20): k timers are inserted and removed one after the
+/// other (each takes the vacated slot), then an fd is adapted (same slot), released, and one more timer inserted.
+/// Output: `pre=<keys> adapter=<key the OS poller holds for the fd> post=<key> woken=<0|1>`
+fn run_adaptkey_case(line: &str) -> String {
+    use std::io::Write;
+    let ws: Vec<&str> = line.split_whitespace().collect();
+    let k: usize = ws.first().and_then(|s| s.parse().ok()).unwrap_or(0);
+    let end_inner = ws.get(1) == Some(&"inner");
+    let mut event_loop: EventLoop<'static, ()> = EventLoop::try_new().expect("loop");
+    let epfd = event_loop.as_raw_fd();
+    let handle = event_loop.handle();
+    let (exec, sched) = executor::<u8>().expect("executor");
+    let woken = Rc::new(RefCell::new(0u8));
+    let w2 = woken.clone();
+    handle.insert_source(exec, move |v, _, _| *w2.borrow_mut() = v).expect("insert");
+    let mut pre = vec![];
+    for _ in 0..k {
+        let t = handle
+            .insert_source(calloop::timer::Timer::from_duration(Duration::from_secs(3600)), |_, _, _| calloop::timer::TimeoutAction::Drop)
+            .expect("timer");
+        pre.push(calloop::verif::registration_token_key(&t).to_string());
+        handle.remove(t);
+    }
+    let (rx, mut tx) = UnixStream::pair().expect("pair");
+    let rxfd = rx.as_raw_fd();
+    let mut a = handle.adapt_io(rx).expect("adapt");
+    let text = std::fs::read_to_string(format!("/proc/self/fdinfo/{}", epfd)).unwrap_or_default();
+    let mut adapter_key = "none".to_string();
+    for l in text.lines().filter(|l| l.starts_with("tfd:")) {
+        let f: Vec<&str> = l.split_whitespace().collect();
+        if f.get(1).and_then(|s| s.parse::<i32>().ok()) == Some(rxfd) {
+            if let Some(d) = f.get(5).and_then(|s| u64::from_str_radix(s, 16).ok()) {
+                adapter_key = d.to_string();
+            }
+        }
+    }
+    let back: Rc<RefCell<Option<UnixStream>>> = Rc::new(RefCell::new(None));
+    let b2 = back.clone();
+    sched
+        .schedule(async move {
+            a.readable().await;
+            if end_inner {
+                *b2.borrow_mut() = Some(a.into_inner());
+            } else {
+                drop(a);
+            }
+            7u8
+        })
+        .expect("schedule");
+    let _ = event_loop.dispatch(Some(Duration::ZERO), &mut ());
+    let _ = tx.write_all(b"x");
+    let mut n = 0;
+    while *woken.borrow() == 0 && n < 40 {
+        let _ = event_loop.dispatch(Some(Duration::from_millis(10)), &mut ());
+        n += 1;
+    }
+    let post = handle
+        .insert_source(calloop::timer::Timer::from_duration(Duration::from_secs(3600)), |_, _, _| calloop::timer::TimeoutAction::Drop)
+        .map(|t| calloop::verif::registration_token_key(&t).to_string())
+        .unwrap_or_else(|_| "err".into());
+    format!("pre={} adapter={} post={} woken={}", pre.join(","), adapter_key, post, (*woken.borrow() == 7) as u8)
+}
+
+pub fn run_adaptkey() {
+    crate::for_each_line(|l| {
+        let r = std::panic::catch_unwind(|| run_adaptkey_case(l)).unwrap_or_else(|_| "PANIC".to_string());
+        println!("{}", r);
+    });
 }
 
 pub fn run_dup() {
